@@ -183,7 +183,10 @@ class C14(Check):
         a, b = cfg["a"], cfg["b"]
         P = query_points(rk, a, b, 5)
         interp = not (st == "extend_split" and not cfg["boundary"])   # __call__ raises there (known finding of C07)
-        call = (lambda inst: np.asarray(inst(P))) if interp else (lambda inst: np.zeros(1))
+        # queries run on deep copies: __call__ may evaluate the integrand at further points (it does for extend-split
+        # version 2), which moves the point count and hence the stop of the continued run - the statement is about
+        # stop / save / restore / continue, not about queries in between
+        call = (lambda inst: np.asarray(copy.deepcopy(inst)(P))) if interp else (lambda inst: np.zeros(1))
         if kind == "continue":
             pass
         elif kind == "two_stage":
